@@ -30,3 +30,4 @@ def run(repo, res, tier):
     multidict.rule_p2(repo, res)
     multidict.rule_p10(repo, res)
     _hk.rule_mut_default(repo, res, modules=("collections",))
+    multidict.rule_pair_kind(repo, res)
